@@ -7,6 +7,7 @@ another signal of the same object is emitted.  Rejection clause: a fixed family 
 """
 import json
 import os
+import re
 import random
 from concurrent.futures import ThreadPoolExecutor
 
@@ -140,6 +141,8 @@ NEGATIVE = [
     ("redefined parameter", "onFired: function(n: int, n: QString) { a.poke() }"),
     ("handler body ill-typed", "onFired: function(n: int) { a.actText(n) }"),
     ("void parameter", "onFired: function(n: void) { a.poke() }"),
+    ("handler on a nested object", "ptr.onPlain: a.poke()"), ("handler inside a nested object group", "sub { onXvalChanged: a.poke() }"),
+    ("handler with parameters on a nested object", "ptr.onFired: function(n: int) { a.act(n) }"),
     ("handler on a gadget member", "font.onChanged: a.poke()"), ("handler inside a grouped value", "font { onFamilyChanged: a.poke() }"),
     ("handler on an attached type", "QLayout.onRowChanged: a.poke()"), ("handler on a value-typed member", "gad.onGxChanged: a.poke()"),
     ("double parameter for int argument", "onFired: function(n: double) { a.poke() }"), ("uint parameter for int argument", "onFired: function(n: uint) { a.poke() }"),
@@ -158,6 +161,55 @@ POSITIVE = [
     ("two default arguments, none taken", "onPeaked: a.poke()"),
     ("parenthesised arrow", "onFired: ((n: int) => { a.act(n) })") if False else ("arrow expression body", "onFired: (n: int) => a.act(n)"),
 ]
+
+
+# handlers inside the map of a nested object of a real Qt class: rejected, or -- if accepted -- connected to that signal
+NESTED_QT = [("QTreeView { header.onSectionClicked: function(i: int) { } }", "sectionClicked"), ("QTableView { horizontalHeader { onSectionResized: { } } }", "sectionResized"),
+             ("QTableView { verticalHeader.onSectionCountChanged: { } }", "sectionCountChanged"), ("QTableView { horizontalHeader { visible: false; onGeometriesChanged: { } } }", "geometriesChanged")]
+
+
+def nested_object_handlers(chk):
+    from vlib import QT5_METATYPES
+    reqs = [{"id": n, "src": "import qmluic.QtWidgets\nQWidget { %s }\n" % body, "type_name": "Doc", "modes": ["generate"]} for n, (body, _) in enumerate(NESTED_QT)]
+    res = translate(reqs, metatypes=[QT5_METATYPES], procs=1)
+    for n, (body, sig) in enumerate(NESTED_QT):
+        r = res[n]["generate"]
+        chk.count({"nested": body}, nontrivial=True)
+        if r.get("panic") or r.get("n_errors"):
+            continue
+        if not re.search(r"connect\([^;]*::%s\b" % sig, r.get("header") or ""):
+            chk.violation("handler of %s inside a nested object is accepted but nothing is connected to the signal: %s" % (sig, body), {"qml": reqs[n]["src"], "header": r.get("header")})
+
+
+def cli_regeneration(chk):
+    """the handler code on disk follows the source: generate, edit only the statements of a handler (the form stays byte-identical), generate again in place --
+    the support header must be the one the library produces for the edited source"""
+    import shutil
+    import subprocess
+    import tempfile
+    from vlib import build_cli, QT5_METATYPES
+    qmluic = build_cli()
+    head = "import qmluic.QtWidgets\n"
+    steps = [head + 'QDialog { id: root; QLineEdit { id: edit } QPushButton { onClicked: { edit.text = "one" } } QCheckBox { onToggled: function(on: bool) { edit.enabled = on } } }\n',
+             head + 'QDialog { id: root; QLineEdit { id: edit } QPushButton { onClicked: { edit.text = "two"; root.accept() } } QCheckBox { onToggled: function(on: bool) { edit.enabled = on } } }\n',
+             head + 'QDialog { id: root; QLineEdit { id: edit } QPushButton { onClicked: { edit.text = "two"; root.accept() } } QCheckBox { onToggled: function(on: bool) { edit.enabled = !on; console.log(on) } } }\n',
+             head + 'QDialog { id: root; QLineEdit { id: edit } QPushButton { onClicked: { } } QCheckBox { onToggled: { } } }\n',
+             head + 'QDialog { id: root; QLineEdit { id: edit } QPushButton { onClicked: { edit.text = "one" } } QCheckBox { onToggled: function(on: bool) { edit.enabled = on } } }\n']
+    lib = translate([{"id": n, "src": t, "type_name": "X", "modes": ["generate"]} for n, t in enumerate(steps)], metatypes=[QT5_METATYPES])
+    d = tempfile.mkdtemp(prefix="c13-", dir=chk.work)
+    try:
+        for n, t in enumerate(steps):
+            open(os.path.join(d, "X.qml"), "w").write(t)
+            p = subprocess.run([qmluic, "generate-ui", "--foreign-types", QT5_METATYPES, "X.qml"], cwd=d, capture_output=True, text=True, timeout=60)
+            chk.count({"regeneration_step": n}, nontrivial=n > 0)
+            if p.returncode != 0:
+                raise ToolError("regeneration step %d failed: %s" % (n, p.stderr[-300:]))
+            h = open(os.path.join(d, "uisupport_x.h")).read()
+            if h != lib[n]["generate"]["header"]:
+                chk.violation("after editing only handler statements and regenerating in place (step %d), uisupport_x.h is not the code of the current handlers" % n,
+                              {"qml": t, "previous_qml": steps[n - 1] if n else None, "on_disk": h, "expected": lib[n]["generate"]["header"]})
+    finally:
+        shutil.rmtree(d, ignore_errors=True)
 
 
 def rejection_clause(chk):
@@ -241,6 +293,8 @@ def run(chk):
                     break
         chk.cov["traces_validated_against_impl"] += 1
     rejection_clause(chk)
+    nested_object_handlers(chk)
+    cli_regeneration(chk)
     for p in acc[:3]:
         chk.sample({"handler": lang.r_handler(p), "rows": rows_of[p["id"]][:2]})
     chk.cov["programs"] = len(acc)
